@@ -41,3 +41,23 @@ func dumpBounds(repo, pat string) {
 		}
 	}
 }
+
+func dumpTerms(repo, pat string) {
+	p, err := Load(LoadConfig{Dir: repo})
+	if err != nil {
+		fmt.Fprintln(os.Stderr, err)
+		os.Exit(2)
+	}
+	for _, fn := range p.Funcs {
+		if !strings.Contains(p.FuncKey(fn), pat) {
+			continue
+		}
+		for _, r := range returnsOf(fn) {
+			for i, v := range r.Results {
+				t := p.newTermer()
+				s := t.Term(v)
+				fmt.Printf("%s return@%s #%d = %s   %v\n", p.FuncKey(fn), p.InstrPos(r), i, s, t.errs)
+			}
+		}
+	}
+}
